@@ -1,13 +1,15 @@
-"""Per-property configuration: which harness crates/prefixes (engine K) and which mirsym
-query sets (engine M) decide each property.  Harness metadata (functions encoded, bounds,
-stubs, what is outside the claim) lives in doc comments next to each harness."""
+"""Per-property configuration, merged from lib/propsd/*.py (one file per harness-crate group).
+Each entry: {"k": [(crate, [harness-name prefixes])], "m": [mirsym query sets], "text": level text,
+"note": level note, optional "timeout": {"quick": s, "thorough": s}, "mem_gb", "jobs", "technique"}.
+Harness metadata (functions encoded, bounds, stubs, what is outside the claim) lives in doc comments
+next to each harness."""
+import glob, importlib.util, os
 
-PROPS = {
-    "C01": {"k": [("k_codec", ["c01_"])], "text": "", "note": ""},
-    "C02": {"k": [("k_codec", ["c02_"])], "text": "", "note": ""},
-    "C14": {
-        "k": [("k_crypto", ["c14_"])],
-        "text": "Bounded model checking of the real memeq/memcmp: for every pair of byte arrays and every compared length 1..=8 (thorough 1..=16) the solver shows memeq <=> equality and memcmp == lexicographic order; a two-byte harness drives the branchless accumulator step through every (accumulator, difference) pair; len==0 panics as documented. Complete within the length bound, which is all the property needs because the loop body does not depend on the length.",
-        "note": "Trusted: Kani/CBMC's model of ptr::read_volatile and i32 arithmetic (dev profile). Lengths > 16 are outside the formula. Constant-time-ness itself (timing) is not the property and is not checked.",
-    },
-}
+PROPS = {}
+for _f in sorted(glob.glob(os.path.join(os.path.dirname(os.path.abspath(__file__)), "propsd", "*.py"))):
+    _spec = importlib.util.spec_from_file_location("propsd_" + os.path.basename(_f)[:-3], _f)
+    _m = importlib.util.module_from_spec(_spec)
+    _spec.loader.exec_module(_m)
+    for _k, _v in _m.PROPS.items():
+        assert _k not in PROPS, _k
+        PROPS[_k] = _v
